@@ -108,10 +108,15 @@ impl From<PropositionalConjunction> for Inconsistency {
 // `?` on a Result<_, EmptyDomain> inside a function returning PropagationStatusCP converts the error with
 // `From::from` (Rust semantics).  vstd models that conversion by the uninterpreted `spec_from`; this axiom
 // links it to the `From<EmptyDomain> for Inconsistency` impl above.  (trusted: language semantics of `?`)
-pub mod conv_axioms { use vstd::prelude::*; use super::{EmptyDomain, Inconsistency};
+pub mod conv_axioms { use vstd::prelude::*; use super::{EmptyDomain, Inconsistency, PropositionalConjunction};
 #[verifier::external_body]
 pub broadcast proof fn axiom_from_empty_domain(e: EmptyDomain, r: Inconsistency)
     ensures #[trigger] vstd::std_specs::control_flow::spec_from::<Inconsistency, EmptyDomain>(e, r) ==> r == Inconsistency::EmptyDomain
+{}
+// the same for `?` on a Result<_, PropositionalConjunction> (From<PropositionalConjunction> for Inconsistency wraps the conjunction)
+#[verifier::external_body]
+pub broadcast proof fn axiom_from_conjunction(e: PropositionalConjunction, r: Inconsistency)
+    ensures #[trigger] vstd::std_specs::control_flow::spec_from::<Inconsistency, PropositionalConjunction>(e, r) ==> r == Inconsistency::Conflict(e)
 {}
 }
 
